@@ -103,7 +103,7 @@ fn take_string(r: ffi::SerializingResult) -> Result<String, String> {
     Ok(out)
 }
 
-fn fill_ctx(cx: &mut ffi::ExecutionContext<'_>, r: &Recipe, c: &MCtx, how: usize, case: &Value) -> CaseResult {
+fn fill_ctx(arena: &mut Arena, cx: &mut ffi::ExecutionContext<'_>, r: &Recipe, c: &MCtx, how: usize, case: &Value) -> CaseResult {
     for (f, v) in r.fields.iter().zip(&c.vals) {
         let Some(v) = v else { continue };
         let np = f.name.as_ptr().cast();
@@ -114,7 +114,7 @@ fn fill_ctx(cx: &mut ffi::ExecutionContext<'_>, r: &Recipe, c: &MCtx, how: usize
             (MVal::Bytes(b), 0) => {
                 // the context borrows the bytes: they must outlive it (leaked here);
                 // a non-null pointer even for the empty slice
-                let buf: &'static [u8] = Box::leak(if b.is_empty() { vec![0u8] } else { b.clone() }.into_boxed_slice());
+                let buf: &'static [u8] = arena.keep_bytes(if b.is_empty() { vec![0u8] } else { b.clone() });
                 ffi::wirefilter_add_bytes_value_to_execution_context(cx, np, nl, buf.as_ptr(), b.len())
             }
             (MVal::Ip(std::net::IpAddr::V4(a)), 0) => ffi::wirefilter_add_ipv4_value_to_execution_context(cx, np, nl, &a.octets()),
@@ -132,6 +132,7 @@ fn fill_ctx(cx: &mut ffi::ExecutionContext<'_>, r: &Recipe, c: &MCtx, how: usize
 }
 
 fn diff_case(ch: &mut Choices<'_>, st: &mut Stats) -> CaseResult {
+    let mut arena = Arena::new();
     let broken = ch.chance(1, 3);
     let how = ch.draw(2);
     let mut gen_ = Gen::new(ch, GenCfg { max_depth: 3, ..GenCfg::full() });
@@ -261,7 +262,7 @@ fn diff_case(ch: &mut Choices<'_>, st: &mut Stats) -> CaseResult {
     for (ci, c) in ctxs.iter().enumerate() {
         st.eval();
         let mut cx = ffi::wirefilter_create_execution_context(&cs);
-        fill_ctx(&mut cx, &recipe, c, how, &case)?;
+        fill_ctx(&mut arena, &mut cx, &recipe, c, how, &case)?;
         let rcx = recipe.make_ctx(rs, c, &lists);
         // context JSON
         let cjson = take_string(ffi::wirefilter_serialize_execution_context_to_json(&mut cx)).map_err(|e| Fail::new("c-api-serialize-context", e, case.clone()))?;
